@@ -181,7 +181,7 @@ func init() {
 		ruleRetain(r)
 		// a collector that is wrong sequentially also disturbs concurrent callers;
 		// files the collector removes/truncates may be lent out by the file cache
-		r.support(grpGC, grpCache, []string{"atomic-rmw", "published-bytes-immutable", "commit-order", "flush-callers"})
+		r.support(grpGC, grpCache, grpPools, []string{"atomic-rmw", "published-bytes-immutable", "commit-order", "flush-callers"})
 	},
 		"Decides structural necessary conditions of 'concurrent GC never disturbs callers', not the behaviour over all interleavings: no unprotected conflicting access pair between the public calls, the flusher and both collectors (lockset analysis incl. the GC roots); lock order acyclic; index GC marks only on the busy()==false edge, busy under bucketLk; GC only touches files whose number is dominated by a != current test against a snapshot taken under flushLock (and, for the free-file scan, taken before the bucket scan); the freelist hand-over runs in one exclusive flushLock section; relocation hands stable buffers to the primary; relocation may re-point a key only if the index still names the moved record (compare-and-swap shape) — violated on the current tree and reported as known finding KF-2. Not covered: the reader-holds-position window (Index.Get dereferences a bucket position after releasing the lock), timing.")
 }
@@ -678,7 +678,7 @@ func init() {
 		ruleLayout(r)
 		ruleSplice(r)
 		rulePosCodec(r)
-		r.support(grpOrder, []string{"pool-flush-complete", "scan-complete-before-truncate", "primary-mark", "gc-mark-guard", "gc-not-current", "retain", "reloc-binding", "bucket-after-write", "tail-recovery",
+		r.support(grpOrder, grpFormat, []string{"reloc-keys", "bad-index-removal", "pool-flush-complete", "scan-complete-before-truncate", "primary-mark", "gc-mark-guard", "gc-not-current", "retain", "reloc-binding", "bucket-after-write", "tail-recovery",
 			"meta-atomic", "rollover-siblings", "rollover-switch", "strip-whole-bytes", "index-names-new-location", "freelist-consume", "togc", "upgrade-order", "chunk-accounting"})
 	},
 		"Decides structural necessary conditions of the fsck invariant, not the invariant over reachable disk states: no location is put on the freelist unless the index stopped naming it on that path; FirstFile advances only past a file shown empty and only when it is the header's first file, and the file is unlinked only after the header write; all scanners/readers honour the deleted bit; a merged free span grows by exactly the bytes the scanner advances over (log stays framed); the rescan applies every non-deleted record; writer, rescan and GC agree on the bucket position convention; writer and reader tables of the index entry, index log record, freelist entry and primary record agree (affine). Not covered: sortedness/prefix-freeness of entries, that entries point at records carrying the right key, division-based absolute-position arithmetic.")
